@@ -79,8 +79,8 @@ ASSUME = ["conditions, right-hand sides and assignments are built programmatical
 
 def replay(ctx, path):
     f = json.load(open(path))
-    if f.get("model") == "forward":
-        p = subprocess.run([c.VH, "replay-one", "forward", path])
+    if f.get("model") in ("forward", "fireorder"):
+        p = subprocess.run([c.VH, "replay-one", f["model"], path])
         return 1 if p.returncode == 1 else (0 if p.returncode == 0 else 2)
     if isinstance(f.get("actual"), dict):
         tmp = ctx.path("one.ndjson")
